@@ -124,6 +124,20 @@ def two_app_family():
              'spec1': {'apps': [{'id': 'vapp', 'models': [v1]},
                                 {'id': 'lapp', 'models': [l0, m('lapp', 'Shelf', [fld('note', 'IntegerField', null=True)])]}]},
              'muts': [add('Alpha', 'b')], 'extra_evolutions': {'lapp': [add('Shelf', 'note')]},
+             'rows': False, 'family': 'two-apps-not-alphabetical'},
+            # ... and the first app has two pending evolutions, the later of which has to wait for the second app,
+            # which has a model to create: the dependency graph comes back to the first app's task a second time
+            {'spec0': {'apps': [{'id': 'vapp', 'models': [v0]}, {'id': 'lapp', 'models': [l0]}]},
+             'spec1': {'apps': [{'id': 'vapp', 'models': [m('vapp', 'Alpha', [fld('a', 'IntegerField', null=True),
+                                                                              fld('b', 'IntegerField', null=True),
+                                                                              fld('c', 'CharField', max_length=30, null=True)])]},
+                                {'id': 'lapp', 'models': [l0, m('lapp', 'Shelf', [fld('note', 'IntegerField', null=True)])]}]},
+             'muts': [add('Alpha', 'b'), {'t': 'AddField', 'model': 'Alpha', 'field': 'c', 'ftype': 'CharField',
+                                          'initial': None, 'attrs': [['max_length', '30'], ['null', 'true']]}],
+             'evolutions': [{'label': 'e1', 'muts': [add('Alpha', 'b')]},
+                            {'label': 'e2', 'after_evolutions': ['lapp'],
+                             'muts': [{'t': 'AddField', 'model': 'Alpha', 'field': 'c', 'ftype': 'CharField',
+                                       'initial': None, 'attrs': [['max_length', '30'], ['null', 'true']]}]}],
              'rows': False, 'family': 'two-apps-not-alphabetical'}]
 
 
